@@ -167,9 +167,6 @@ def classify(f):
         return "nbins_dict_int_typeerror"
     if cl == "lookup of the NS mass returns the NS bin" and f.get("ns_scalar"):
         return "nbins_dict_ns_scalar"
-    if cl in ("exactly one NS bin contains the NS mass", "lookup of the NS mass returns the NS bin") \
-            and f.get("edge_at_ns_mass"):
-        return "ns_bin_edge_at_ns_mass"
     if cl == "remnant bins are increasing and non-overlapping" and f.get("wd_edge_at_wd_max"):
         return "wd_bin_degenerate_edge_at_wd_max"
     if f.get("construction_error") == "IndexError" and f.get("first_break_above_wd"):
